@@ -1,61 +1,60 @@
-(* ArenaFindings.v -- HAND-WRITTEN.  Obligations of the generated programs that are NOT provable on the naive
-   domain "every size is a usize", each with its witness.  (Informational: compiled by run_findings.sh, not by
-   run_arena.sh -- a repair of the source makes these statements false, which is not an alarm.) *)
+(* ArenaFindings.v -- HAND-WRITTEN.  HISTORY: up to /repo commit fefaae2, Bucket::with_capacity built its Layout with
+   Layout::from_size_align_unchecked, whose safety precondition (size <= isize::MAX) is not implied by NonZeroUsize;
+   capacity 2^63 -- a legal argument of the safe constructors Capacity::for_bytes / Rodeo::with_capacity / Arena::new --
+   violated it (confirmed with Miri on the real crate).  Commit 784e567 repaired it with the checked constructor.
+   The statements below are the REPAIRED counterparts of the three former witnesses: at the same inputs every collected
+   obligation now holds and the call returns Err(FailedAllocation).  (The former witnesses are in LegacySanityF7.v and are
+   checked against the pre-repair source by sanity_f7.sh.)  Compiled by run_findings.sh / `prop.sh findings`. *)
 From Lasso Require Import Base Arena ArenaProofs.
-From LassoGen Require Import GenPrelude GenIR GenTactics ArenaGen.
+From LassoGen Require Import GenPrelude GenIR GenRequest GenTactics ArenaGen.
 Open Scope N_scope.
 
-(* run the generated program symbolically on the concrete input (the data bytes are never materialised), then
-   find the violated obligation among the collected ones *)
+(* run the generated program symbolically on a concrete input (the data bytes are never materialised) *)
 Ltac cmp_step :=
   match goal with
   | |- context [N.ltb ?a ?b] => destruct (N.ltb_spec a b); try (exfalso; lia)
   | |- context [N.leb ?a ?b] => destruct (N.leb_spec a b); try (exfalso; lia)
   | |- context [N.eqb ?a ?b] => destruct (N.eqb_spec a b); try (exfalso; lia)
   end.
-Ltac refute_obligations :=
-  unfold_all; norm_pow;
-  repeat (cbn; unfold alloc_spec, push_slice, free_spec, is_full_spec, last_opt; try cmp_step);
-  unfold_props; norm_pow; cbn;
-  let H := fresh in intros H; split_hyps; lia.
+Ltac norm_slen :=
+  repeat match goal with
+  | |- context [slen ?l] =>
+      let v := eval vm_compute in (slen l) in
+      lazymatch v with N0 => idtac | Npos _ => idtac end; change (slen l) with v
+  end.
+Ltac run_concrete :=
+  unfold_all; unfold isize_max, usize_max in *; norm_pow;
+  repeat (cbn; unfold alloc_spec, wc_spec, isize_max, usize_max, push_slice, free_spec, is_full_spec, last_opt; norm_slen; try cmp_step);
+  unfold_props; norm_pow; cbn.
 
-(* Bucket::with_capacity(capacity) calls Layout::from_size_align_unchecked(capacity, 1), whose safety precondition
-   is capacity <= isize::MAX.  NonZeroUsize does not ensure that: with capacity = 2^63 (a legal argument of the
-   safe constructors Capacity::for_bytes / Rodeo::with_capacity / Arena::new) the obligation is violated.
-   In a debug build the preceding debug_assert! panics; in a release build this is a violated `unsafe`
-   precondition (in practice the allocator then returns null and FailedAllocation is reported). *)
-Theorem with_capacity_layout_obligation_fails :
-  let cap := 2 ^ 63 in 0 < cap <= usize_max /\ ~ snd (run_wc gen_with_capacity 0 cap).
-Proof.
-  cbv zeta. split; [unfold usize_max; lia|].
-  refute_obligations.
-Qed.
+Theorem with_capacity_layout_repaired :
+  let cap := 2 ^ 63 in
+  fst (run_wc gen_with_capacity 0 cap) = Some (Err FailedAllocation) /\ snd (run_wc gen_with_capacity 0 cap).
+Proof. cbv zeta. split; run_concrete; prop_close. Qed.
 
-(* the same through Arena::new *)
-Theorem new_layout_obligation_fails :
-  let cap := 2 ^ 63 in 0 < cap <= usize_max /\ ~ snd (run_new gen_new [cap; usize_max]).
-Proof.
-  cbv zeta. split; [unfold usize_max; lia|].
-  refute_obligations.
-Qed.
+Theorem new_layout_repaired :
+  let cap := 2 ^ 63 in
+  fst (run_new gen_new [cap; usize_max]) = Some (Err FailedAllocation) /\ snd (run_new gen_new [cap; usize_max]).
+Proof. cbv zeta. split; run_concrete; prop_close. Qed.
 
-(* store_str: with a bucket capacity of 2^62 the doubled bucket has 2^63 bytes; ArenaInv and "all fields are
-   usizes" hold, usage + 2*cap does not overflow, and still an obligation (wc_pre: the Layout bound) fails.  This
-   is why store_dom has the two isize_max clauses. *)
+(* a bucket capacity of 2^62: the doubled bucket would have 2^63 bytes.  All obligations hold; the call books the
+   2^63 bytes, doubles the capacity, and then reports the failed allocation (finding #3: the accounting is not undone) *)
 Definition big_arena : arena := mkArena [mkBlock 0 1 1 [0]] (2 ^ 62) 1 usize_max 1.
-Theorem store_str_needs_isize_bound :
-  ArenaInv big_arena /\ arena_typed big_arena /\
-  usage big_arena + 2 * bucket_cap big_arena <= usize_max /\
-  ~ snd (run_fun gen_store_str big_arena [7] []).
+Theorem store_str_big_bucket_repaired :
+  ArenaInv big_arena /\ arena_typed big_arena /\ store_dom big_arena [7] /\
+  snd (run_fun gen_store_str big_arena [7] []) /\
+  as_str_result (fst (run_fun gen_store_str big_arena [7] []))
+    = Some (mkArena [mkBlock 0 1 1 [0]] (2 ^ 63) (1 + 2 ^ 63) usize_max 1, Err FailedAllocation).
 Proof.
-  split; [|split; [|split]].
+  split; [|split; [|split; [|split]]].
   - unfold ArenaInv, big_arena, block_ok; cbn. repeat split; try discriminate; try lia;
       repeat constructor; cbn; try lia; try tauto; try reflexivity.
   - unfold arena_typed, big_arena, usize_max; cbn. repeat split; try lia. repeat constructor; cbn; lia.
-  - unfold big_arena, usize_max; cbn; norm_pow; lia.
-  - unfold big_arena. refute_obligations.
+  - unfold store_dom, big_arena, usize_max; cbn. change (slen [7]) with 1. norm_pow. lia.
+  - unfold big_arena. run_concrete; prop_close.
+  - unfold big_arena. run_concrete; norm_pow; eq_close.
 Qed.
 
-Print Assumptions with_capacity_layout_obligation_fails.
-Print Assumptions new_layout_obligation_fails.
-Print Assumptions store_str_needs_isize_bound.
+Print Assumptions with_capacity_layout_repaired.
+Print Assumptions new_layout_repaired.
+Print Assumptions store_str_big_bucket_repaired.
